@@ -65,6 +65,7 @@ type cancelReq struct {
 	Src     string `json:"src"`
 	AfterMs int    `json:"after_ms"`
 	NoLate  bool   `json:"no_late"` // skip the late-probe observation (fast repetitions)
+	Prelude string `json:"prelude"` // run first on the same environment with vm.Execute (context.Background): a library loaded earlier
 }
 
 // several script goroutines racing on one buffered channel: the cancellation must reach every one of
@@ -99,6 +100,13 @@ func cancelInWorker(req cancelReq) cancelResp {
 	n := 0
 	defineStubs(e, func(interface{}) { mu.Lock(); n++; mu.Unlock() })
 	_ = e.Define("callcb", func(f func()) { f() })
+	if req.Prelude != "" {
+		if _, err := vm.Execute(e, nil, req.Prelude); err != nil {
+			resp.Err = "prelude: " + err.Error()
+			resp.Returned = true
+			return resp
+		}
+	}
 	ctx, cancel := context.WithCancel(context.Background())
 	done := make(chan struct{})
 	var runErr error
@@ -259,16 +267,27 @@ func streamCancel(o *Out, r *rand.Rand, n int, thorough bool) {
 	}
 	type wcr struct {
 		wc
-		after  int
-		noLate bool
+		after   int
+		noLate  bool
+		prelude string
 	}
 	var runs []wcr
 	for _, c := range wcs {
-		runs = append(runs, wcr{c, 30, false})
+		runs = append(runs, wcr{c, 30, false, ""})
+	}
+	// functions defined by an EARLIER run on the same environment (a library loaded with vm.Execute) run under the context of
+	// the run that calls them: every parameter shape, spinning and blocking, directly and through what they call
+	libPrelude := "func lib1(a) {\nfor {\nprobe(a)\n}\n}\nfunc lib5(a, b, c, d, e) {\nfor {\nprobe(a)\n}\n}\nfunc libv(xs...) {\nfor {\nprobe(1)\n}\n}\n" +
+		"func libblock5(a, b, c, d, e) {\nch = make(chan int64)\n<-ch\n}\nfunc libblockv(xs...) {\nch = make(chan int64)\nch <- 1\n}\n" +
+		"func each5(f, a, b, c, d) {\nreturn f(a)\n}\nfunc eachv(f, xs...) {\nreturn f(1)\n}\nfunc spin(a) {\nfor {\nprobe(a)\n}\n}\n" +
+		"lit5 = func(a, b, c, d, e) {\nfor {\n}\n}\nlitv = func(xs...) {\nfor {\n}\n}\n"
+	for _, call := range []string{"lib1(1)", "lib5(1, 2, 3, 4, 5)", "libv(1, 2)", "libv()", "libv([1, 2]...)", "libblock5(1, 2, 3, 4, 5)", "libblockv(1)", "each5(spin, 1, 2, 3, 4)", "eachv(spin, 1)",
+		"each5(func(a) {\nfor {\n}\n}, 1, 2, 3, 4)", "lit5(1, 2, 3, 4, 5)", "litv(1)", "func() {\ndefer libv(1)\n}()", "x = [lib5(1, 2, 3, 4, 5)]"} {
+		runs = append(runs, wcr{wc{"library-function", call + "\nprobe(\"after\")"}, 30, false, libPrelude})
 	}
 	for i := 0; i < reps; i++ {
 		for _, c := range raceCores {
-			runs = append(runs, wcr{wc{c.name, c.src}, 1 + i%4, true})
+			runs = append(runs, wcr{wc{c.name, c.src}, 1 + i%4, true, ""})
 		}
 	}
 	notHonoured := map[string]int{}
@@ -277,7 +296,7 @@ func streamCancel(o *Out, r *rand.Rand, n int, thorough bool) {
 		if notHonoured[c.name] >= 2 {
 			continue // already reported; every further hit costs a worker restart
 		}
-		b, _ := json.Marshal(cancelReq{Src: c.src, AfterMs: cr.after, NoLate: cr.noLate})
+		b, _ := json.Marshal(cancelReq{Src: c.src, AfterMs: cr.after, NoLate: cr.noLate, Prelude: cr.prelude})
 		ans := runIsolatedRaw("cancel", string(b), 4*time.Second)
 		o.Sum.Evaluations++
 		o.Sum.Hist["wallclock:"+c.name]++
